@@ -329,3 +329,44 @@ Proof.
               HuS HwS HuD HwD Hts Hlk Hokt Hsk Hrs Hdry Hfl Hsame) as (T1 & T2 & T3 & T4 & T5 & T6).
   unfold settled, quiet, run_job. rewrite Fs, Fd. repeat split; assumption.
 Qed.
+
+(* ---- chains, closed: nothing is assumed about the trees in the middle of the run ---- *)
+From RJ Require Import Proofs.LinkTexts.
+
+Definition store_good (st : store) : Prop :=
+  forall i, wf_fs (sget st i) /\ unique_keys (sget st i) /\ src_times_set (sget st i) /\ links_utf8 (sget st i).
+
+Definition clean_run (t : job * store * result) : Prop :=
+  r_skipped (t_res t) = [] /\ r_root_skipped (t_res t) = false /\ cf_dry (j_cfg (t_job t)) = false /\ cf_fl (j_cfg (t_job t)) = Unix.
+
+(* If all trees are good at the start (well-formed, all times set, all link texts well-formed UTF-8) and no sync of
+   the spec skips anything (no dry run, Unix destinations), then EVERY sync that returns Ok mirrors its source as it
+   was when that sync began - however many earlier syncs had written it - and every store along the way is good. *)
+Theorem spec_chain_mirrors jobs : forall st, store_good st ->
+  Forall clean_run (spec_trace jobs st) ->
+  Forall (fun t =>
+    let j := t_job t in let S := sget (t_store t) (j_src j) in let D := sget (t_store t) (j_dst j) in
+    store_good (t_store t) /\
+    (r_ok (t_res t) = true ->
+     mirror now_far (excl_incl (j_ex j)) normalize_unix (cf_diff (j_cfg j)) Unix S D (d_fs (r_dest (t_res t)))))
+    (spec_trace jobs st).
+Proof.
+  induction jobs as [|j rest IH]; intros st Hg Hclean; cbn [spec_trace] in *; [constructor|].
+  inversion Hclean as [|t0 l0 Hc0 Hrest]; subst.
+  destruct Hc0 as (Hsk & Hrs & Hdry & Hfl). cbn [t_res t_job fst snd] in Hsk, Hrs, Hdry, Hfl.
+  destruct (Hg (j_src j)) as (HwS & HuS & HtS & HlS). destruct (Hg (j_dst j)) as (HwD & HuD & HtD & HlD).
+  assert (Hm : r_ok (run_job j st) = true ->
+               mirror now_far (excl_incl (j_ex j)) normalize_unix (cf_diff (j_cfg j)) Unix (sget st (j_src j)) (sget st (j_dst j))
+                      (d_fs (r_dest (run_job j st)))).
+  { intros Hok. unfold run_job in *. apply run_top_mirror_unconditional; assumption. }
+  constructor; [cbn [t_res t_job t_store fst snd]; split; [exact Hg|exact Hm]|].
+  destruct (r_ok (run_job j st)) eqn:Eok; [|constructor].
+  apply IH; [|exact Hrest].
+  intros i. destruct (Nat.eq_dec i (j_dst j)) as [->|Hne].
+  - rewrite sget_sset_eq. unfold run_job in *.
+    destruct (run_top_wfu (j_cfg j) (sget st (j_src j)) (sget st (j_dst j)) (j_anc j) (j_ans j) (j_bits j) (j_ex j) (j_ft j) HuD HwD) as [Hw' Hu'].
+    split; [exact Hw'|]. split; [exact Hu'|]. split.
+    + eapply mirror_keeps_times_set; [apply Hm; reflexivity|exact HtS|exact HtD].
+    + apply (proj2 (run_top_keeps_links_utf8 (j_cfg j) _ _ (j_anc j) (j_ans j) (j_bits j) (j_ex j) (j_ft j) HuS HwS HuD HwD HlS HlD Hfl)).
+  - rewrite sget_sset_ne by exact Hne. apply Hg.
+Qed.
